@@ -8,7 +8,7 @@ C10 - well-formed pages; source text never becomes markup.  Decides the raw-mark
   R10.6 templates parse as XML; their renderers and slots exist
   R10.7 a module's own __docformat__ wins over its package's (which parser sees the text)
   R10.8 a catch-all handler hands helpers only arguments whose every Union member the helper accepts
-  R10.9 docutils' own text-to-markup paths (math2html, URL schemes) are closed in the translator
+  R10.9 docutils' own text-to-markup paths (math2html, URL schemes, the <object> alternate text - encoded on every path) are closed in the translator
   R10.10 docutils' escaping primitives (encode, attval, starttag) are not replaced by a translator subclass, only extended through super()
 Trusted base: twisted.web.template flattening escapes text/attribute values; docutils' encode/attval/starttag escape.
 """
